@@ -7,6 +7,13 @@ TB_COMMON = [
 ]
 
 HARNESSES = {
+    "kp": {
+        "module": "grpcgcp", "pkg": ".", "test": "TestVerifKeyPath",
+        "files": ["harness/grpcgcp/zz_verif_kp_test.go"],
+        "corpus_glob": "*.ops", "corpus_dirs": [],
+        "episode_start": r"^kp ",
+        "tiers": {"quick": {"episodes": 3000}, "thorough": {"episodes": 150000, "seeds": 8}},
+    },
     "ck": {
         "module": "e2e-checksum", "pkg": ".", "test": "TestVerifChecksum",
         "files": ["harness/e2e-checksum/zz_verif_ck_test.go"],
@@ -57,7 +64,19 @@ CK_TB = TB_COMMON + [
     "parse_marshal assumes the message type does not itself define field 2047 and that the payload is well-formed wire format",
 ]
 
+KP_TB = TB_COMMON + [
+    "modelled, not verified: package reflect (Kind, Elem, FieldByName/FieldByIndexErr incl. promotion through embedded structs: the harness asks reflect for the resolved field table of every struct and hands it to the model), strings.Title for ASCII locators, strings.Split",
+    "non-ASCII locators are outside the model (strings.Title's Unicode title-casing)",
+]
+
 PROPS = {
+    "C11": {"harnesses": ["kp"], "lake_targets": ["GcpVerif"],
+            "theorems": [("GcpVerif.Proofs.KeyPath", "GcpVerif.KeyPath." + n) for n in
+                         ["keys_eq_follow", "getAffinityKeys_eq_follow", "loopKeys_spec", "nil_is_error", "nil_nested_is_error",
+                          "empty_slice_no_keys", "missing_field_error", "non_struct_error", "non_string_leaf_error",
+                          "string_leaf", "slice_in_order", "split_nonempty"]],
+            "leanchecker": ["GcpVerif.Proofs.KeyPath"],
+            "trusted_base": KP_TB, "assumptions": ["ASCII locators"]},
     "C19": {"harnesses": ["ck"], "lake_targets": ["GcpVerif"],
             "theorems": [("GcpVerif.Proofs.Checksum", "GcpVerif.Checksum." + n) for n in
                          ["consts_tie", "tag_bytes", "marshal_bytes", "marshal_length", "marshal_payload_suffix",
